@@ -40,7 +40,10 @@ def _first_diff(ma, ia):
 def run(chk, ctx, cases):
     cases = [c for c in cases if len(c.split(' ')) == 3 and c.split(' ')[1] == 'array']
     cov = ctx['cov'].setdefault('class_model_array', {})
+    ntotal = len(cases)
+    cases = [c for c in cases if contlib.tie_affordable(c)]
     cov['cases'] = len(cases)
+    cov['too_large_for_the_pointer_level_model'] = ntotal - len(cases)
     if not cases:
         return []
     exe, log = vlib.build_model(FAMILY)
@@ -59,7 +62,7 @@ def run(chk, ctx, cases):
         for c in cases:
             f.write(c + '\n')
     try:
-        mouts, _ = vlib.run_model(exe, path, len(cases))
+        mouts = contlib.run_model_sliced(exe, cases, work, 'array-tie')
         iouts, det = vlib.run_cases(ctx['impl_exe'], path, len(cases), env={'LV_CONT_B': '1'},
                                     timeout_per_run=getattr(chk, 'case_timeout', 600))
     finally:
